@@ -270,8 +270,9 @@ func (g *mgen) emitBatch(pat string, names []string) {
 // programs of the globs profile
 
 type pgen struct {
-	c *hl.Ctx
-	r *rand.Rand
+	c      *hl.Ctx
+	r      *rand.Rand
+	triple bool // the program uses board-wide (***) globs and layers
 }
 
 var shapes = []string{"circle", "square", "oval", "diamond", "hexagon", "cloud"}
@@ -354,6 +355,9 @@ func (g *pgen) block(depth int) []sx.Stmt {
 			}
 		case 5, 6, 7:
 			pat := g.pick(fieldPats)
+			if g.triple && g.r.Intn(3) == 0 {
+				pat = "***"
+			}
 			out = append(out, g.attrStmt(sx.U(pat)))
 			g.c.Count("glob:field:" + pat)
 		case 8:
@@ -537,8 +541,18 @@ func run(c *hl.Ctx) error {
 	pg := &pgen{c: c, r: r}
 	np := c.Pick(1500, 100000)
 	for i := 0; i < np; i++ {
+		pg.triple = r.Intn(5) == 0
 		body := pg.block(0)
-		if r.Intn(4) == 0 {
+		if pg.triple {
+			// a block of layers somewhere in the root block; every layer is a block of its own
+			var layers []sx.Stmt
+			for li, nl := 0, 1+r.Intn(2); li < nl; li++ {
+				layers = append(layers, sx.F(sx.U(fmt.Sprintf("l%d", li+1)), sx.VM(pg.block(1))))
+			}
+			pos := r.Intn(len(body) + 1)
+			body = append(body[:pos], append([]sx.Stmt{sx.F(sx.U("layers"), sx.VM(layers))}, body[pos:]...)...)
+			c.Count("feature:layers+triple-globs")
+		} else if r.Intn(4) == 0 {
 			body = pg.flatBlock()
 			c.Count("fragment:one-block-attribute-globs")
 		}
